@@ -200,6 +200,44 @@ pub fn ops_signature(trace: &ExecutionTrace) -> String {
     s
 }
 
+/// Directed workload: u32 arithmetic on operands that are NOT u32 values. The assembly reference
+/// calls the result "undefined", but execution succeeds, so the statement of C03 ("for every
+/// successful execution …") applies literally. Reported under its own signature family so that a
+/// listed finding here can never hide a constraint failure on valid programs.
+pub fn undefined_u32_operands(rng: &mut Rng8, rep: &mut Report) {
+    let instrs = [
+        "u32wrapping_add", "u32overflowing_add", "u32wrapping_add3", "u32overflowing_add3", "u32wrapping_sub", "u32overflowing_sub",
+        "u32wrapping_mul", "u32overflowing_mul", "u32wrapping_madd", "u32overflowing_madd", "u32div", "u32mod", "u32divmod",
+    ];
+    for ins in instrs {
+        for k in 0..12 {
+            let big = |rng: &mut Rng8| (1u64 << 32) + (rng.gen::<u64>() % (crate::util::P - (1u64 << 32)));
+            let a = if k % 3 == 0 { 1u64 << 63 } else { big(rng) };
+            let b = if k % 3 == 1 { (1u64 << 32) + 1 } else { big(rng) };
+            let c = big(rng);
+            let case = Case::new(format!("begin {ins} end")).with_stack(&[a, b, c]);
+            let prog = match case.assemble() {
+                AsmOutcome::Ok(p) => p,
+                _ => continue,
+            };
+            rep.count("undefined_u32_operands", "executed");
+            if let ExecOutcome::Ok(mut trace) = case.execute(&prog) {
+                let si = case.stack_inputs();
+                let r = rand_quad(rng);
+                let fails = check_trace_safe::<Quad>(&mut trace, &si, &r, 4);
+                rep.evals(1);
+                if let Some(f) = fails.first() {
+                    rep.violation(
+                        format!("undefined-u32-operands/{}", op_name(f.op)),
+                        format!("`{ins}` on non-u32 operands executes successfully but the trace violates {} constraint {} (op {})", f.kind, f.idx, op_name(f.op)),
+                        json!({"kind": "case", "case": case.to_json()}),
+                    );
+                }
+            }
+        }
+    }
+}
+
 pub fn meta() -> Meta {
     Meta {
         level: "exploration",
@@ -227,6 +265,9 @@ pub fn run(cfg: &Cfg) -> Report {
             let gc = GenCfg::random(&mut rng, size);
             let case = gen_case(&mut rng, &gc);
             run_case(&case, &mut rng, &mut rep, i % 3 == 0);
+        }
+        if sh == 0 {
+            undefined_u32_operands(&mut rng, &mut rep);
         }
         if sh % 16 == 1 {
             // trace-length boundary sweep: the dominating component (cycles, chiplet rows with a
